@@ -239,6 +239,14 @@ const UNREGISTERED: &[&str] = &[
     "application/xml",
     "application/jsonx",
     "application/x-jackson-smile2",
+    "application/json+xml",
+    "application/json+json",
+    "application/x-jackson-smile+json",
+    "application/vnd.api+json",
+    "application/json+xml; charset=utf-8",
+    "text/json",
+    "application/json/extra",
+    "application /json",
     "json",
     "application/",
     "*/*",
